@@ -62,6 +62,10 @@ type Case struct {
 	// call still gets exactly one outcome: its own result, or the server's
 	// refusal (in which case it did not run).
 	Overload bool `json:"overload,omitempty"`
+	// Local: sessions (by index) which are the server's own local session
+	// (Server.Session(): in-process clients, one per proxy, no socket) instead of
+	// a network session; there every caller goroutine gets proxies of its own.
+	Local []int `json:"local,omitempty"`
 }
 
 func genCase(t *rapid.T) Case {
@@ -95,6 +99,11 @@ func genCase(t *rapid.T) Case {
 			gs = append(gs, ops)
 		}
 		c.Sessions = append(c.Sessions, gs)
+	}
+	for s := 0; s < nsess; s++ {
+		if rapid.IntRange(0, 3).Draw(t, "local") == 0 {
+			c.Local = append(c.Local, s)
+		}
 	}
 	c.RemoveUnderLoad = rapid.Bool().Draw(t, "removeunderload")
 	c.Overload = rapid.IntRange(0, 3).Draw(t, "overload") == 0
@@ -181,20 +190,45 @@ func checkCase(c Case) (verr error) {
 	var wg sync.WaitGroup
 	var hung int32
 	for si, gs := range c.Sessions {
-		sess, err := session.NewAuthSession(env.Addr, "u", "t")
-		if err != nil {
-			return vt.Violationf("C04:setup", "session: %v", err)
-		}
-		defer sess.Terminate()
-		proxies := make([]pong.PingPongProxy, len(targets))
-		for i, tg := range targets {
-			px, err := sess.Proxy(tg.service, tg.objectID)
-			if err != nil {
-				return vt.Violationf("C04:proxy", "Proxy(%s,%d): %v", tg.service, tg.objectID, err)
+		isLocal := false
+		for _, l := range c.Local {
+			if l == si {
+				isLocal = true
 			}
-			proxies[i] = pong.MakePingPong(sess, px)
+		}
+		var sess bus.Session
+		if isLocal {
+			sess = env.Server.Session()
+			vt.Label("local-session")
+		} else {
+			sess, err = session.NewAuthSession(env.Addr, "u", "t")
+			if err != nil {
+				return vt.Violationf("C04:setup", "session: %v", err)
+			}
+			defer sess.Terminate()
+		}
+		mkProxies := func() ([]pong.PingPongProxy, error) {
+			proxies := make([]pong.PingPongProxy, len(targets))
+			for i, tg := range targets {
+				px, err := sess.Proxy(tg.service, tg.objectID)
+				if err != nil {
+					return nil, vt.Violationf("C04:proxy", "Proxy(%s,%d): %v", tg.service, tg.objectID, err)
+				}
+				proxies[i] = pong.MakePingPong(sess, px)
+			}
+			return proxies, nil
+		}
+		sessProxies, err := mkProxies()
+		if err != nil {
+			return err
 		}
 		for gi, ops := range gs {
+			proxies := sessProxies
+			if isLocal && gi > 0 {
+				if proxies, err = mkProxies(); err != nil {
+					return err
+				}
+			}
 			wg.Add(1)
 			go func(si, gi int, ops []Op) {
 				defer wg.Done()
